@@ -520,7 +520,15 @@ func (a *Act) mapStore(st *State, mt *types.Map, m, k, v Term, present bool) {
 	if !present {
 		p = "false"
 	}
-	st.setHeap(dn, ds, store(st.heap(dn, ds), m, store(hsel(st.u, st.heap(dn, ds), m), k, p)))
+	oldDom := hsel(st.u, st.heap(dn, ds), m)
+	if present {
+		// cardinality of a finite set after adding one key (len of the map): +1 exactly when the key is new
+		d := a.u.D
+		ks := d.SortOf(mt.Key())
+		card := d.Fun("card_"+sanitize(ks), []string{"(Array " + ks + " Bool)"}, "Int")
+		a.u.Fact(eq(app(card, store(oldDom, k, "true")), app("+", app(card, oldDom), ite(sel(oldDom, k), "0", "1"))))
+	}
+	st.setHeap(dn, ds, store(st.heap(dn, ds), m, store(oldDom, k, p)))
 	if present {
 		st.setHeap(vn, vs, store(st.heap(vn, vs), m, store(hsel(st.u, st.heap(vn, vs), m), k, v)))
 	}
